@@ -12,7 +12,7 @@ COQ_IMPORTS = ""
 SHARD = 60
 RULE = ("random masks (densities 0.1-0.9, plus single pixels, rings with holes, two components) inside frames up to 9x9 whose kernel "
         "footprint stays inside the frame; kernels kh,kw in {1,3,5,7} independently with signed integer / quarter entries, asymmetric; "
-        "images, blurring images and mapping matrices with integer, k/4 or tiny (k/8192) entries of either sign, dense and sparse (zeros included); a "
+        "images, blurring images and mapping matrices with integer, k/4 or tiny (k/8192) entries of either sign, dense and sparse (zeros included); for small masks the whole operator on every unit image / unit blurring image; a "
         "separate malformed stream (even kernels, footprints leaving the frame). Entry points: Convolver.convolve_image / "
         "convolve_image_no_blurring / convolve_mapping_matrix, Kernel2D.convolved_array_from / convolved_array_with_mask_from, "
         "SimulatorImaging.via_image_from -> apply_mask -> convolver (zero residual). Non-trivial = at least 2 unmasked pixels and a "
@@ -76,6 +76,13 @@ def gen_inputs(tier, rng):
         seed = rng.randrange(10 ** 9)
         for op in (["convolve", "noblur", "matrix", "init"] if i % 3 else ["convolve", "matrix", "whole", "init"]):
             yield {"op": op, "m": m, "K": [[str(v) for v in r] for r in K], "seed": seed, "sparse": bool(i % 2)}
+        # the whole operator, extracted on basis images (unit image / unit blurring image), for small masks
+        nb = sum(1 for y in range(H) for x in range(W) if m[y][x] and any(
+            not m[yy][xx] for yy in range(max(0, y - kh // 2), min(H, y + kh // 2 + 1))
+            for xx in range(max(0, x - kw // 2), min(W, x + kw // 2 + 1))))
+        if i % 4 == 3 and nun + nb <= 14:
+            for k in range(nun + nb):
+                yield {"op": "convolve", "m": m, "K": [[str(v) for v in r] for r in K], "seed": seed, "sparse": False, "basis": k}
     # malformed stream: even kernels, footprints leaving the frame
     for i in range(60 if tier == "thorough" else 20):
         kh, kw = rng.choice([1, 2, 3, 4, 5]), rng.choice([1, 2, 3, 4, 5])
@@ -132,6 +139,9 @@ def run_case(inp):
         bm = mask.derive_mask.blurring_from(kernel_shape_native=(kh, kw))
         nb = int(bm.pixels_in_mask)
         bimg = rand_vals(rng, nb, inp["sparse"])
+        if inp.get("basis") is not None:
+            e = [Fraction(int(j == inp["basis"])) for j in range(nun + nb)]
+            img, bimg = e[:nun], e[nun:nun + nb]
         res = c.convolve_image(image=aa.Array2D(values=fl(img), mask=mask),
                                blurring_image=aa.Array2D(values=fl(bimg), mask=bm) if nb else aa.Array2D(values=np.zeros(0), mask=bm))
         out = [frac(x) for x in np.array(res.slim)]
